@@ -40,6 +40,10 @@ def concretise(progs, pid, tier, seed, mult, bset=REAL_B, allk=False, kinds=None
                 ops.append(q)
             ops = fuse_json_close(ops)
             pms = [dict(type=x["type"], n=sz(x["size"], min(B, 4096)), mutate=(rnd.random() < 0.5)) for x in p.get("pms", [])]
+            # prepared data messages at the length-encoding boundaries (they are framed by their own code path)
+            for x in pms:
+                if x["type"] in (1, 2) and x["n"] > 0 and rnd.random() < 0.2:
+                    x["n"] = rnd.choice([125, 126, 127, 4095, 4096, 4097, 65535, 65536, 65537])
             q = dict(id="%s-%s-%d-%d" % (pid, tier[0], i, m), conns=conns, ops=ops, pms=pms,
                      seed=rnd.randrange(1, 1 << 30), fault=None, allk=allk, kinds=kinds or [])
             out.append(q)
